@@ -1434,6 +1434,9 @@ class Evaluator:
             return a.at(idx)
         if isinstance(a, Term) and a.head == 'zip' and a.args:
             return Tup([self.element_of(x_, idx) for x_ in a.args])
+        if isinstance(a, Term) and a.head == 'range' and len(a.args) in (2, 4) and all(isinstance(x_, Num) and x_.length is None for x_ in a.args):
+            # element j of range(lo, hi[, step]) is lo + j * step
+            return Num(a.args[0].r + idx) if len(a.args) == 2 else Num(a.args[0].r + a.args[2].r * idx)
         if isinstance(a, Term) and a.head == 'enumerate' and a.args:
             start = a.kw('start') if a.kw('start') is not None else (a.args[1] if len(a.args) > 1 else Num(C(0)))
             if isinstance(start, Num) and start.length is None:
